@@ -86,6 +86,8 @@ class Interp(ExprMixin):
         self.attr_assigns = {}  # self.<attr> -> valset (flow-insensitive, this run)
         self.path_attrs = path_attrs if path_attrs is not None else {}
         self.alias = {}
+        self.assume = None      # scenario runs: atom -> True / False / None
+        self.dynamic_ops = {}   # (function, line) -> LockOp matched with the resolver
         self._partition = None
         self.handler_runs = []  # (func, handler node, label, ctx, Out of the handler body)
         self._uid = 0
@@ -423,6 +425,25 @@ class Interp(ExprMixin):
         change under our feet (own mutations, other threads)"""
         if f[0] == "lit":
             return f[1]
+        if self.assume is not None:
+            # scenario run: some file-system probes are fixed by assumption
+            asg = {}
+            for a in F.atoms_of(f):
+                v = self.assume(a)
+                if v is not None:
+                    asg[a] = v
+            if asg:
+                rest = [a for a in F.atoms_of(f) if a not in asg]
+                if not rest:
+                    return F.evaluate(f, asg)
+                vals = set()
+                from itertools import product
+                if len(rest) <= 6:
+                    for bits in product((False, True), repeat=len(rest)):
+                        vals.add(F.evaluate(f, {**asg, **dict(zip(rest, bits))}))
+                    if len(vals) == 1:
+                        return vals.pop()
+                return None
         if any(a[0] in ("probe", "callres") for a in F.atoms_of(f)):
             return None
         return F.implied(st.facts, f)
@@ -458,8 +479,56 @@ class Interp(ExprMixin):
             exits = o.normal
         return exits
 
+    def const_elements(self, it, st):
+        """the constants of a small literal collection (class-level list, tuple/list literal of
+        constants), in order; None otherwise"""
+        if len(it) != 1:
+            return None
+        t = next(iter(it))
+        vals = None
+        if tag(t) == "classlist":
+            node = self.p.class_attr_assigns(t[1]).get(t[2])
+            if isinstance(node, (ast.List, ast.Tuple)) and all(isinstance(e, ast.Constant) for e in node.elts):
+                vals = [e.value for e in node.elts]
+        elif tag(t) == "list":
+            els = st.lists.get(t, EMPTY)
+            site = t[1]
+            node = None
+            # a list literal of constants keeps its source order through its creation site
+            f = self.p.funcs.get(site[0]) if isinstance(site, tuple) else None
+            if f is not None:
+                for n in ast.walk(f.node):
+                    if isinstance(n, ast.List) and getattr(n, "lineno", None) == site[1] and getattr(n, "col_offset", None) == site[2]:
+                        node = n
+            if node is not None and node.elts and all(isinstance(e, ast.Constant) for e in node.elts) \
+                    and els == frozenset(C(e.value) for e in node.elts):
+                vals = [e.value for e in node.elts]
+        elif tag(t) == "tuple" and all(len(x) == 1 and is_const(next(iter(x))) for x in t[1]):
+            vals = [next(iter(x))[1] for x in t[1]]
+        if vals is None or len(vals) > 12:
+            return None
+        return vals
+
     def st_For(self, s, st, frame, out):
         it, st = self.eval(s.iter, st, frame, out)
+        consts = self.const_elements(it, st)
+        if consts is not None and not s.orelse:
+            # unrolled: one iteration per constant, in order
+            cur = st
+            exits = None
+            for c in consts:
+                if cur is None:
+                    break
+                hs = self.assign(s.target, V(C(c)), cur, frame, out)
+                o = self.exec_block(s.body, hs, frame)
+                for l in o.raises:
+                    for x in o.raise_states(l):
+                        out.add_raise(l, x)
+                for pst, pval in o.ret_parts():
+                    out.add_return(pst, pval)
+                exits = join(exits, o.brk)
+                cur = join(o.normal, o.cont)
+            return join(exits, cur)
         elems, st = self.elements(it, st, frame, s)
         head = st
         # zero iterations: a tracked list that is empty on this path cannot be what carries
@@ -496,8 +565,17 @@ class Interp(ExprMixin):
         return exits
 
     def st_With(self, s, st, frame, out):
-        op = match_with(s, frame.func, self.sync)
+        def resolve(node, _st=st):
+            # a local that can only hold condition / claim-list attributes of self
+            if isinstance(node, ast.Name):
+                vals = _st.env.get(node.id)
+                if vals and all(tag(t) == "selfattr" for t in vals):
+                    return frozenset(t[1] for t in vals)
+            return None
+
+        op = match_with(s, frame.func, self.sync, resolve)
         if op is not None:
+            self.dynamic_ops[(frame.func.qual, s.lineno)] = op
             return self.lock_with(op, s, st, frame, out)
         bound = []
         for item in s.items:
